@@ -314,7 +314,7 @@ class Oracle:
         if not okc:
             return
         P2, Q2 = R @ P + t, R @ Q + t
-        w2 = P2 - Q2
+        w2 = R @ (P - Q)            # = P2 - Q2 without the cancellation of the two transformed points
         v2 = np.cross(w2, P2)
         self.ok('se3mul:type', isinstance(TL, Plucker), "SE3 * Plucker is not a Plucker", rp)
         self.close('se3mul:w', TL.w, w2, nrm(w2), rp, "SE3*L: direction is not the rotated direction")
@@ -584,3 +584,35 @@ def run(ctx):
         sym_num(ctx, g, MOD, ctx.n(20, 300))
     with ctx.timed('oracle'):
         oracle(ctx)
+
+
+def replay(ctx, path):
+    """./check C19 --replay file: re-run exactly the recorded configuration on the implementation
+    (oracle findings), or the whole check (broken obligations / correspondence / path findings)."""
+    import json
+    rec = json.load(open(path))
+    key, r = rec.get('key'), rec.get('replay') or {}
+    H = lambda k: np.array([float.fromhex(h) for h in r[k]], float)
+    O = Oracle(ctx)
+    kind = r.get('check')
+    if key is None or kind is None:
+        from lib.main import generic_replay
+        import props.C19 as me
+        return generic_replay(ctx, me, path)
+    if kind == 'single':
+        O.single_line(H('P_hex'), H('Q_hex'), H('x_hex'), [0.0, float(r.get('lam', 1.0))], 1)
+    elif kind == 'rigid':
+        O.rigid(H('P_hex'), H('Q_hex'), H('T_hex').reshape(4, 4))
+    elif kind == 'equality':
+        for _ in range(20):
+            O.equality(H('P_hex'), H('w_hex'), ctx.rng)
+    elif kind == 'pair':
+        O.pair(r['position'], H('p1_hex'), H('w1_hex'), H('p2_hex'), H('w2_hex'))
+    elif kind == 'plane':
+        O.plane(H('p0_hex'), H('n_hex'), H('P_hex'), H('w_hex'), ctx.rng)
+    hit = [f for f in ctx.findings if f.key == key]
+    for f in ctx.findings:
+        print(('REPRODUCED ' if f.key == key else 'also: ') + f.key + ': ' + f.what[:300])
+    if not hit:
+        print('not reproduced: ' + str(key))
+    return 1 if hit else 0
